@@ -2637,4 +2637,754 @@ theorem filterMap_toList {α β : Type} (xs : List α) (f : α → Option β) :
 def bodyUsages (S : Schema) (d : Definition) : List Usage :=
   Spec.usagesDirs S (Spec.defDirs d) ++ (Spec.occDef S d).flatMap (Spec.usagesOcc S)
 
+/-! ## No secondary error on well-scoped documents (first field pass, spread inspection) -/
+
+theorem nil_of_primaryFree_allPrimary {es : List Err} (h1 : primaryFree es = true) (h2 : AllPrimary es) : es = [] := by
+  cases es with
+  | nil => rfl
+  | cons e rest =>
+    have a := h2 e (by simp)
+    simp [primaryFree, a] at h1
+
+theorem allPrimary_flatMap {α : Type} (xs : List α) (f : α → List Err) (h : ∀ x ∈ xs, AllPrimary (f x)) :
+    AllPrimary (xs.flatMap f) := by
+  intro e he
+  simp only [List.mem_flatMap] at he
+  obtain ⟨x, hx, hex⟩ := he
+  exact h x hx e hex
+
+theorem subselection_allPrimary (b : Bool) (n : String) (p : Pos) (sel : Option SelSet) :
+    AllPrimary (subselectionErrors b n p sel) := by
+  unfold subselectionErrors
+  cases b <;> cases sel <;> simp only [Bool.false_eq_true, if_false, if_true]
+  all_goals first
+    | exact allPrimary_nil
+    | exact allPrimary_single _ _
+    | (split <;> first | exact allPrimary_nil | exact allPrimary_single _ _)
+
+theorem missingField_allPrimary (S : Schema) (scope : Option String) (n : String) (np : Pos) :
+    AllPrimary (missingFieldErrors S scope n np) := by
+  unfold missingFieldErrors
+  simp only
+  split
+  · cases scope with
+    | none => exact allPrimary_nil
+    | some p =>
+      simp only
+      cases Model.kindOf S p with
+      | none => exact allPrimary_nil
+      | some k =>
+        cases k <;> simp only <;> first
+          | exact allPrimary_nil
+          | exact allPrimary_single _ _
+          | (split <;> first | exact allPrimary_nil | exact allPrimary_single _ _)
+  · exact allPrimary_nil
+
+/-- With a TypeInfo entry (or for `__typename`) the callback of the first pass emits no secondary error. -/
+theorem fieldNode_allPrimary (S : Schema) (scope : Option String) (al : Option (String × Pos)) (n : String) (np : Pos)
+    (sel : Option SelSet) (hi : (Model.fieldDefinition S scope n).isSome = true ∨ n = "__typename") :
+    AllPrimary (fieldNodeErrors S scope al n np sel) := by
+  unfold fieldNodeErrors
+  simp only
+  have e1 : (if (Model.fieldDefinition S scope n).isNone && n != "__typename" then
+      [newSecondaryError (fieldPos al np) "no type info for field"] else []) = [] := by
+    rcases hi with hi | hi
+    · cases hd : Model.fieldDefinition S scope n <;> simp [hd] at hi ⊢
+    · simp [hi]
+  rw [e1]
+  apply allPrimary_append (allPrimary_append allPrimary_nil (missingField_allPrimary S scope n np))
+  split
+  · exact subselection_allPrimary _ _ _ _
+  · exact allPrimary_nil
+
+mutual
+theorem fields1_sel_allPrimary (S : Schema) : ∀ (scope : Option String) (sel : Selection),
+    (moccSel S scope sel).all (hasInfoAt S) = true → AllPrimary (fields1Sel S scope sel)
+  | scope, .field al n np args dirs none, h => by
+    simp only [moccSel, List.all_cons, Bool.and_eq_true, hasInfoAt, Bool.or_eq_true, decide_eq_true_eq] at h
+    simp only [fields1Sel, List.append_nil]
+    exact fieldNode_allPrimary S scope al n np none h.1
+  | scope, .field al n np args dirs (some ss), h => by
+    simp only [moccSel, List.all_cons, Bool.and_eq_true, hasInfoAt, Bool.or_eq_true, decide_eq_true_eq] at h
+    simp only [fields1Sel]
+    exact allPrimary_append (fieldNode_allPrimary S scope al n np (some ss) h.1)
+      (fields1_set_allPrimary S _ ss h.2)
+  | scope, .spread n np dirs p, _ => by simp [fields1Sel, AllPrimary]
+  | scope, .inline tc dirs ss p, h => by
+    simp only [moccSel, List.all_cons, Bool.and_eq_true] at h
+    simp only [fields1Sel]
+    exact fields1_set_allPrimary S _ ss h.2
+theorem fields1_set_allPrimary (S : Schema) : ∀ (scope : Option String) (ss : SelSet),
+    (moccSet S scope ss).all (hasInfoAt S) = true → AllPrimary (fields1Set S scope ss)
+  | scope, .mk sels p, h => by
+    simp only [moccSet, fields1Set] at *
+    exact fields1_sels_allPrimary S scope sels h
+theorem fields1_sels_allPrimary (S : Schema) : ∀ (scope : Option String) (sels : List Selection),
+    (moccSels S scope sels).all (hasInfoAt S) = true → AllPrimary (fields1Sels S scope sels)
+  | scope, [], _ => by simp [fields1Sels, AllPrimary]
+  | scope, s :: rest, h => by
+    simp only [moccSels, List.all_append, Bool.and_eq_true] at h
+    simp only [fields1Sels]
+    exact allPrimary_append (fields1_sel_allPrimary S scope s h.1) (fields1_sels_allPrimary S scope rest h.2)
+end
+
+theorem hasInfo_def {S : Schema} {D : Document} (h : WellScoped S D) {d : Definition} (hd : d ∈ D) :
+    (moccSet S (Model.defScope S d) (Model.defSel d)).all (hasInfoAt S) = true := by
+  obtain ⟨e, hocc⟩ := def_occs h hd
+  rw [e, List.all_eq_true]
+  intro o ho
+  exact info_of_scoped h.wf (hocc o ho).1 (hocc o ho).2
+
+theorem validateSpread_allPrimary (S : Schema) (tc : String) (p : Pos) (q : String) :
+    AllPrimary (validateSpread S tc p (some q)) := by
+  unfold validateSpread
+  simp only
+  split
+  · exact allPrimary_nil
+  · split
+    · split
+      · exact allPrimary_nil
+      · exact allPrimary_single _ _
+    · exact allPrimary_nil
+
+theorem spreadOcc_allPrimary (S : Schema) (D : Document) {o : Occ} (hinv : Inv S (occParent o)) :
+    AllPrimary (spreadOcc S D o) := by
+  obtain ⟨q, hq, _⟩ := hinv
+  cases o with
+  | field => exact allPrimary_nil
+  | spread parent n np dirs p =>
+    simp only [occParent] at hq
+    subst hq
+    simp only [spreadOcc, spreadTargetErrors]
+    cases Model.fragLast D n with
+    | none => exact allPrimary_single _ _
+    | some f => exact validateSpread_allPrimary S _ _ _
+  | inline parent tc dirs p =>
+    simp only [occParent] at hq
+    subst hq
+    cases tc with
+    | none => exact allPrimary_nil
+    | some tp =>
+      obtain ⟨t, tpos⟩ := tp
+      exact validateSpread_allPrimary S _ _ _
+
+/-! ## Reachability: closure by rounds (the specification's `reachable`) -/
+
+/-- `b` is reached from `a` by one or more steps of `deps`. -/
+inductive Reach (deps : String → List String) : String → String → Prop where
+  | step {a b : String} : b ∈ deps a → Reach deps a b
+  | trans {a b c : String} : b ∈ deps a → Reach deps b c → Reach deps a c
+
+theorem Reach.tail {deps : String → List String} {a b c : String} (h : Reach deps a b) (hc : c ∈ deps b) :
+    Reach deps a c := by
+  induction h with
+  | step h1 => exact .trans h1 (.step hc)
+  | trans h1 _ ih => exact .trans h1 (ih hc)
+
+/-- `dedup` keeps exactly the elements. -/
+theorem mem_dedup_aux (acc xs : List String) (x : String) :
+    x ∈ xs.foldl (fun acc x => if acc.contains x then acc else acc ++ [x]) acc ↔ (x ∈ acc ∨ x ∈ xs) := by
+  induction xs generalizing acc with
+  | nil => simp
+  | cons y rest ih =>
+    simp only [List.foldl_cons, ih, List.mem_cons]
+    by_cases hc : y ∈ acc
+    · simp only [List.contains_eq_mem, hc, decide_true, if_true]
+      constructor
+      · rintro (h | h)
+        · exact Or.inl h
+        · exact Or.inr (Or.inr h)
+      · rintro (h | h | h)
+        · exact Or.inl h
+        · exact Or.inl (h ▸ hc)
+        · exact Or.inr h
+    · simp only [List.contains_eq_mem, hc, decide_false, Bool.false_eq_true, if_false, List.mem_append,
+        List.mem_singleton]
+      constructor
+      · rintro ((h | h) | h)
+        · exact Or.inl h
+        · exact Or.inr (Or.inl h)
+        · exact Or.inr (Or.inr h)
+      · rintro (h | h | h)
+        · exact Or.inl (Or.inl h)
+        · exact Or.inl (Or.inr h)
+        · exact Or.inr h
+
+theorem mem_dedup (xs : List String) (x : String) : x ∈ Spec.dedup xs ↔ x ∈ xs := by
+  unfold Spec.dedup
+  rw [mem_dedup_aux]
+  simp
+
+theorem nodup_dedup_aux (acc xs : List String) (h : Spec.nodup acc = true) :
+    Spec.nodup (xs.foldl (fun acc x => if acc.contains x then acc else acc ++ [x]) acc) = true := by
+  induction xs generalizing acc with
+  | nil => simpa using h
+  | cons y rest ih =>
+    simp only [List.foldl_cons]
+    apply ih
+    by_cases hc : y ∈ acc
+    · simpa [hc] using h
+    · simp only [List.contains_eq_mem, hc, decide_false, Bool.false_eq_true, if_false]
+      -- nodup (acc ++ [y]) from nodup acc and y ∉ acc
+      clear ih
+      induction acc with
+      | nil => simp [Spec.nodup]
+      | cons a rest' ih' =>
+        simp only [List.cons_append, nodup_cons, Bool.and_eq_true, Bool.not_eq_true', List.contains_eq_mem,
+          decide_eq_false_iff_not, List.mem_append, List.mem_singleton, not_or] at h ⊢
+        simp only [List.mem_cons, not_or] at hc
+        exact ⟨⟨h.1, fun he => hc.1 he.symm⟩, ih' h.2 hc.2⟩
+
+theorem nodup_dedup (xs : List String) : Spec.nodup (Spec.dedup xs) = true := by
+  unfold Spec.dedup
+  exact nodup_dedup_aux [] xs rfl
+
+/-- A duplicate-free list inside `U` is no longer than `U`. -/
+theorem length_le_of_nodup_subset : ∀ (l U : List String), Spec.nodup l = true → (∀ x ∈ l, x ∈ U) →
+    l.length ≤ U.length
+  | [], U, _, _ => by simp
+  | x :: rest, U, hn, hs => by
+    simp only [nodup_cons, Bool.and_eq_true, Bool.not_eq_true', List.contains_eq_mem, decide_eq_false_iff_not] at hn
+    have hx : x ∈ U := hs x (by simp)
+    have ih := length_le_of_nodup_subset rest (U.erase x) hn.2 (by
+      intro y hy
+      have hyU := hs y (by simp [hy])
+      have hne : y ≠ x := fun he => hn.1 (he ▸ hy)
+      exact (List.mem_erase_of_ne hne).2 hyU)
+    have hl := List.length_erase_of_mem hx
+    simp only [List.length_cons]
+    have hpos : 0 < U.length := List.length_pos_of_mem hx
+    omega
+
+
+/-! ### the rounds -/
+
+section Rounds
+variable (deps : String → List String)
+
+/-- One round of the specification's closure. -/
+def roundOf (acc : List String) : List String := Spec.dedup (acc ++ acc.flatMap deps)
+
+def roundsOf : Nat → List String → List String
+  | 0, acc => acc
+  | k + 1, acc => roundsOf k (roundOf deps acc)
+
+theorem mem_roundOf (acc : List String) (x : String) :
+    x ∈ roundOf deps acc ↔ (x ∈ acc ∨ ∃ a ∈ acc, x ∈ deps a) := by
+  unfold roundOf
+  rw [mem_dedup]
+  simp [List.mem_flatMap]
+
+theorem subset_roundsOf (k : Nat) (acc : List String) : ∀ x ∈ acc, x ∈ roundsOf deps k acc := by
+  induction k generalizing acc with
+  | zero => intro x hx; exact hx
+  | succ k ih =>
+    intro x hx
+    exact ih _ x ((mem_roundOf deps acc x).2 (Or.inl hx))
+
+/-- Everything in the closure is a start element or reached from one. -/
+theorem roundsOf_sound (k : Nat) (acc : List String) :
+    ∀ x ∈ roundsOf deps k acc, x ∈ acc ∨ ∃ a ∈ acc, Reach deps a x := by
+  induction k generalizing acc with
+  | zero => intro x hx; exact Or.inl hx
+  | succ k ih =>
+    intro x hx
+    rcases ih _ x hx with h | ⟨a, ha, hr⟩
+    · rcases (mem_roundOf deps acc x).1 h with h | ⟨a, ha, hd⟩
+      · exact Or.inl h
+      · exact Or.inr ⟨a, ha, .step hd⟩
+    · rcases (mem_roundOf deps acc a).1 ha with h | ⟨b, hb, hd⟩
+      · exact Or.inr ⟨a, h, hr⟩
+      · exact Or.inr ⟨b, hb, .trans hd hr⟩
+
+/-- Closed under `deps`. -/
+def Closed (acc : List String) : Prop := ∀ a ∈ acc, ∀ x ∈ deps a, x ∈ acc
+
+theorem closed_reach {acc : List String} (hc : Closed deps acc) {a x : String} (ha : a ∈ acc)
+    (hr : Reach deps a x) : x ∈ acc := by
+  induction hr with
+  | step h => exact hc _ ha _ h
+  | trans h _ ih => exact ih (hc _ ha _ h)
+
+theorem closed_of_round_subset {acc : List String} (h : ∀ x ∈ roundOf deps acc, x ∈ acc) : Closed deps acc := by
+  intro a ha x hx
+  exact h x ((mem_roundOf deps acc x).2 (Or.inr ⟨a, ha, hx⟩))
+
+theorem closed_round {acc : List String} (hc : Closed deps acc) : Closed deps (roundOf deps acc) := by
+  intro a ha x hx
+  rcases (mem_roundOf deps acc a).1 ha with h | ⟨b, hb, hd⟩
+  · exact (mem_roundOf deps acc x).2 (Or.inl (hc a h x hx))
+  · exact (mem_roundOf deps acc x).2 (Or.inl (hc a (hc b hb a hd) x hx))
+
+theorem closed_rounds (k : Nat) {acc : List String} (hc : Closed deps acc) : Closed deps (roundsOf deps k acc) := by
+  induction k generalizing acc with
+  | zero => exact hc
+  | succ k ih => exact ih (closed_round deps hc)
+
+/-- A duplicate-free list that gains an element gets longer. -/
+theorem length_lt_of_new (l1 l2 : List String) (h1 : Spec.nodup l1 = true) (h2 : Spec.nodup l2 = true)
+    (hs : ∀ x ∈ l1, x ∈ l2) (x : String) (hx2 : x ∈ l2) (hx1 : x ∉ l1) : l1.length < l2.length := by
+  have hn : Spec.nodup (x :: l1) = true := by
+    simp only [nodup_cons, Bool.and_eq_true, Bool.not_eq_true', List.contains_eq_mem, decide_eq_false_iff_not]
+    exact ⟨hx1, h1⟩
+  have := length_le_of_nodup_subset (x :: l1) l2 hn (by
+    intro y hy
+    simp only [List.mem_cons] at hy
+    rcases hy with rfl | hy
+    · exact hx2
+    · exact hs y hy)
+  simp only [List.length_cons] at this
+  omega
+
+/-- After `k` rounds from a duplicate-free start inside a universe `U` that contains every
+    dependency, with `k ≥ |U|`, the result is closed. -/
+theorem roundsOf_closed (U : List String) (hU : ∀ a x, x ∈ deps a → x ∈ U) :
+    ∀ (k : Nat) (acc : List String), Spec.nodup acc = true → (∀ x ∈ acc, x ∈ U) →
+      U.length < acc.length + k + 1 → Closed deps (roundsOf deps k acc) := by
+  intro k
+  induction k with
+  | zero =>
+    intro acc hn hs hlen
+    -- the start already fills the universe: nothing new can appear
+    apply closed_of_round_subset
+    intro x hx
+    by_cases hm : x ∈ acc
+    · exact hm
+    · have hrn : Spec.nodup (roundOf deps acc) = true := nodup_dedup _
+      have hrs : ∀ y ∈ roundOf deps acc, y ∈ U := by
+        intro y hy
+        rcases (mem_roundOf deps acc y).1 hy with h | ⟨a, _, hd⟩
+        · exact hs y h
+        · exact hU a y hd
+      have h1 := length_lt_of_new acc (roundOf deps acc) hn hrn
+        (fun y hy => (mem_roundOf deps acc y).2 (Or.inl hy)) x hx hm
+      have h2 := length_le_of_nodup_subset _ U hrn hrs
+      simp only [roundsOf] at *
+      omega
+  | succ k ih =>
+    intro acc hn hs hlen
+    simp only [roundsOf]
+    have hrn : Spec.nodup (roundOf deps acc) = true := nodup_dedup _
+    have hrs : ∀ y ∈ roundOf deps acc, y ∈ U := by
+      intro y hy
+      rcases (mem_roundOf deps acc y).1 hy with h | ⟨a, _, hd⟩
+      · exact hs y h
+      · exact hU a y hd
+    by_cases hstable : ∀ x ∈ roundOf deps acc, x ∈ acc
+    · -- a stable round: closed already, and closedness is kept
+      exact closed_rounds deps k (closed_round deps (closed_of_round_subset deps hstable))
+    · -- a productive round: the list got longer
+      have : ∃ x, x ∈ roundOf deps acc ∧ x ∉ acc := by
+        by_cases hex : ∃ x, x ∈ roundOf deps acc ∧ x ∉ acc
+        · exact hex
+        · exfalso
+          apply hstable
+          intro x hx
+          by_cases hm : x ∈ acc
+          · exact hm
+          · exact absurd ⟨x, hx, hm⟩ hex
+      obtain ⟨x, hx, hm⟩ := this
+      have h1 := length_lt_of_new acc (roundOf deps acc) hn hrn
+        (fun y hy => (mem_roundOf deps acc y).2 (Or.inl hy)) x hx hm
+      apply ih (roundOf deps acc) hrn hrs
+      omega
+
+/-- **The closure by rounds is reachability**: with at least `|U|` rounds, `x` is in the result
+    iff it is a start element or reached from one. -/
+theorem mem_roundsOf_iff (U : List String) (hU : ∀ a x, x ∈ deps a → x ∈ U) (k : Nat) (acc : List String)
+    (hn : Spec.nodup acc = true) (hs : ∀ x ∈ acc, x ∈ U) (hk : U.length ≤ k) (x : String) :
+    x ∈ roundsOf deps k acc ↔ (x ∈ acc ∨ ∃ a ∈ acc, Reach deps a x) := by
+  constructor
+  · exact roundsOf_sound deps k acc x
+  · have hc := roundsOf_closed deps U hU k acc hn hs (by omega)
+    rintro (h | ⟨a, ha, hr⟩)
+    · exact subset_roundsOf deps k acc x h
+    · exact closed_reach deps hc (subset_roundsOf deps k acc a ha) hr
+
+end Rounds
+
+/-! ## The cycle search (validate_fragments.go:84-102) is reachability -/
+
+/-- What the inner loop does when `name` has not been encountered. -/
+theorem visitDeps_spec (name : String) : ∀ (deps tv enc : List String), name ∉ enc →
+    let r := visitDeps name (tv, enc, false) deps
+    (r.2.2 = true ↔ name ∈ deps) ∧
+    (r.2.2 = false → name ∉ r.2.1 ∧ (∃ added, r.1 = tv ++ added ∧ r.2.1 = enc ++ added ∧ (∀ x ∈ added, x ∈ deps)) ∧
+      (∀ d ∈ deps, d ∈ r.2.1) ∧ (Spec.nodup enc = true → Spec.nodup r.2.1 = true))
+  | [], tv, enc, hn => by
+    simp only [visitDeps]
+    refine ⟨by simp, fun _ => ⟨hn, ⟨[], by simp⟩, by simp, fun h => h⟩⟩
+  | dep :: rest, tv, enc, hn => by
+    simp only [visitDeps, Bool.false_eq_true, if_false]
+    by_cases hc : dep ∈ enc
+    · simp only [List.contains_eq_mem, hc, decide_true, if_true]
+      have ih := visitDeps_spec name rest tv enc hn
+      simp only at ih
+      obtain ⟨i1, i2⟩ := ih
+      have hne : dep ≠ name := fun he => hn (he ▸ hc)
+      refine ⟨?_, ?_⟩
+      · rw [i1]; simp only [List.mem_cons]
+        constructor
+        · exact Or.inr
+        · rintro (h | h)
+          · exact absurd h.symm hne
+          · exact h
+      · intro hf
+        obtain ⟨j1, ⟨added, ja, jb, jc⟩, j3, j4⟩ := i2 hf
+        refine ⟨j1, ⟨added, ja, jb, fun x hx => List.mem_cons_of_mem _ (jc x hx)⟩, ?_, j4⟩
+        intro d hd
+        simp only [List.mem_cons] at hd
+        rcases hd with rfl | hd
+        · rw [jb]; exact List.mem_append_left _ hc
+        · exact j3 d hd
+    · simp only [List.contains_eq_mem, hc, decide_false, Bool.false_eq_true, if_false]
+      by_cases hd : dep = name
+      · simp [hd]
+      · simp only [hd, if_false]
+        have hn' : name ∉ enc ++ [dep] := by
+          simp only [List.mem_append, List.mem_singleton, not_or]
+          exact ⟨hn, fun he => hd he.symm⟩
+        have ih := visitDeps_spec name rest (tv ++ [dep]) (enc ++ [dep]) hn'
+        simp only at ih
+        obtain ⟨i1, i2⟩ := ih
+        refine ⟨?_, ?_⟩
+        · rw [i1]; simp only [List.mem_cons]
+          constructor
+          · exact Or.inr
+          · rintro (h | h)
+            · exact absurd h.symm hd
+            · exact h
+        · intro hf
+          obtain ⟨j1, ⟨added, ja, jb, jc⟩, j3, j4⟩ := i2 hf
+          refine ⟨j1, ⟨dep :: added, by rw [ja]; simp, by rw [jb]; simp, ?_⟩, ?_, ?_⟩
+          · intro x hx
+            simp only [List.mem_cons] at hx ⊢
+            rcases hx with rfl | hx
+            · exact Or.inl rfl
+            · exact Or.inr (jc x hx)
+          · intro d hd'
+            simp only [List.mem_cons] at hd'
+            rcases hd' with rfl | hd'
+            · rw [jb]; simp
+            · exact j3 d hd'
+          · intro hnd
+            apply j4
+            -- nodup (enc ++ [dep])
+            clear i1 i2 j1 ja jb jc j3 j4 hf hn hn' hd
+            induction enc with
+            | nil => simp [Spec.nodup]
+            | cons a rest' ih' =>
+              simp only [List.cons_append, nodup_cons, Bool.and_eq_true, Bool.not_eq_true', List.contains_eq_mem,
+                decide_eq_false_iff_not, List.mem_append, List.mem_singleton, not_or] at hnd ⊢
+              simp only [List.mem_cons, not_or] at hc
+              exact ⟨⟨hnd.1, fun he => hc.1 he.symm⟩, ih' hc.2 hnd.2⟩
+
+
+/-- Invariant of the outer loop. -/
+structure BfsInv (deps : String → List String) (U : List String) (name : String) (tv : List String) (i : Nat)
+    (enc : List String) : Prop where
+  shape : tv = name :: enc
+  fresh : name ∉ enc
+  reached : ∀ x ∈ enc, Reach deps name x
+  processed : ∀ j, j < i → ∀ cur, tv[j]? = some cur → ∀ d ∈ deps cur, d ∈ enc
+  nodup : Spec.nodup enc = true
+  inU : ∀ x ∈ enc, x ∈ U
+  bound : i ≤ tv.length
+
+theorem reach_in_enc {deps : String → List String} {tv enc : List String}
+    (hp : ∀ cur ∈ tv, ∀ d ∈ deps cur, d ∈ enc) (hs : ∀ x ∈ enc, x ∈ tv) {a c : String} (ha : a ∈ tv)
+    (hr : Reach deps a c) : c ∈ enc := by
+  induction hr with
+  | step h => exact hp _ ha _ h
+  | trans h _ ih => exact ih (hs _ (hp _ ha _ h))
+
+theorem getElem?_append_left' {α : Type} (xs ys : List α) (j : Nat) (h : j < xs.length) :
+    (xs ++ ys)[j]? = xs[j]? := by
+  rw [List.getElem?_append_left h]
+
+theorem cycleSearch_spec (D : Document) (U : List String) (name : String)
+    (hU : ∀ a x, x ∈ directDeps D a → x ∈ U) :
+    ∀ (fuel : Nat) (tv : List String) (i : Nat) (enc : List String),
+      BfsInv (directDeps D) U name tv i enc → U.length + 2 ≤ fuel + i →
+      ∃ b, cycleSearch D name fuel tv i enc = some b ∧ (b = true ↔ Reach (directDeps D) name name) := by
+  intro fuel
+  induction fuel with
+  | zero =>
+    intro tv i enc inv hf
+    exfalso
+    have h1 := inv.bound
+    have h2 := length_le_of_nodup_subset enc U inv.nodup inv.inU
+    rw [inv.shape] at h1
+    simp only [List.length_cons] at h1
+    omega
+  | succ fuel ih =>
+    intro tv i enc inv hf
+    unfold cycleSearch
+    cases hcur : tv[i]? with
+    | none =>
+      refine ⟨false, rfl, ?_⟩
+      simp only [Bool.false_eq_true, false_iff]
+      intro hr
+      have hlen : tv.length ≤ i := by
+        rw [List.getElem?_eq_none_iff] at hcur; exact hcur
+      have hp : ∀ cur ∈ tv, ∀ d ∈ directDeps D cur, d ∈ enc := by
+        intro cur hc d hd
+        obtain ⟨j, hj, hje⟩ := List.getElem_of_mem hc
+        exact inv.processed j (by omega) cur (by rw [List.getElem?_eq_getElem hj, hje]) d hd
+      have hs : ∀ x ∈ enc, x ∈ tv := by
+        intro x hx; rw [inv.shape]; exact List.mem_cons_of_mem _ hx
+      have hname : name ∈ tv := by rw [inv.shape]; simp
+      exact inv.fresh (reach_in_enc hp hs hname hr)
+    | some cur =>
+      simp only
+      have hspec := visitDeps_spec name (directDeps D cur) tv enc inv.fresh
+      simp only at hspec
+      obtain ⟨hfound, hnot⟩ := hspec
+      have hcurmem : cur ∈ tv := List.mem_of_getElem? hcur
+      have hcurreach : cur = name ∨ Reach (directDeps D) name cur := by
+        rw [inv.shape] at hcurmem
+        simp only [List.mem_cons] at hcurmem
+        rcases hcurmem with h | h
+        · exact Or.inl h
+        · exact Or.inr (inv.reached cur h)
+      have hviacur : ∀ x ∈ directDeps D cur, Reach (directDeps D) name x := by
+        intro x hx
+        rcases hcurreach with rfl | hr
+        · exact .step hx
+        · exact hr.tail hx
+      cases hr : visitDeps name (tv, enc, false) (directDeps D cur) with
+      | mk tv' rest =>
+        obtain ⟨enc', found⟩ := rest
+        rw [hr] at hfound hnot
+        simp only at hfound hnot
+        cases found with
+        | true =>
+          refine ⟨true, rfl, ?_⟩
+          simp only [true_iff]
+          exact hviacur name (hfound.1 rfl)
+        | false =>
+          simp only
+          obtain ⟨hfresh, ⟨added, hta, hea, hadd⟩, hall, hnd⟩ := hnot rfl
+          have ilt : i < tv.length := by
+            have := List.getElem?_eq_some_iff.1 hcur
+            exact this.1
+          apply ih tv' (i + 1) enc'
+          · refine ⟨?_, hfresh, ?_, ?_, hnd inv.nodup, ?_, ?_⟩
+            · rw [hta, hea, inv.shape]; simp
+            · intro x hx
+              rw [hea] at hx
+              simp only [List.mem_append] at hx
+              rcases hx with hx | hx
+              · exact inv.reached x hx
+              · exact hviacur x (hadd x hx)
+            · intro j hj c hc d hd
+              by_cases hji : j < i
+              · have : tv[j]? = some c := by
+                  rw [hta, getElem?_append_left' tv added j (by omega)] at hc; exact hc
+                have := inv.processed j hji c this d hd
+                rw [hea]; exact List.mem_append_left _ this
+              · have hje : j = i := by omega
+                subst hje
+                have : tv[j]? = some c := by
+                  rw [hta, getElem?_append_left' tv added j ilt] at hc; exact hc
+                rw [hcur] at this
+                simp only [Option.some.injEq] at this
+                subst this
+                exact hall d hd
+            · intro x hx
+              rw [hea] at hx
+              simp only [List.mem_append] at hx
+              rcases hx with hx | hx
+              · exact inv.inU x hx
+              · exact hU cur x (hadd x hx)
+            · rw [hta]; simp only [List.length_append]; omega
+          · omega
+
+
+/-! ### assembling the cycle rule -/
+
+theorem Reach.mono {d1 d2 : String → List String} (h : ∀ a x, x ∈ d1 a → x ∈ d2 a) {a b : String}
+    (hr : Reach d1 a b) : Reach d2 a b := by
+  induction hr with
+  | step h1 => exact .step (h _ _ h1)
+  | trans h1 _ ih => exact .trans (h _ _ h1) ih
+
+theorem reach_self_iff (deps : String → List String) (n : String) :
+    Reach deps n n ↔ (n ∈ deps n ∨ ∃ a ∈ deps n, Reach deps a n) := by
+  constructor
+  · intro h
+    cases h with
+    | step h1 => exact Or.inl h1
+    | trans h1 h2 => exact Or.inr ⟨_, h1, h2⟩
+  · rintro (h | ⟨a, ha, hr⟩)
+    · exact .step h
+    · exact .trans ha hr
+
+theorem reachable_eq_roundsOf (D : Document) (k : Nat) (acc : List String) :
+    Spec.reachable D k acc = roundsOf (Spec.fragDeps D) k acc := by
+  induction k generalizing acc with
+  | zero => rfl
+  | succ k ih => simp only [Spec.reachable, roundsOf, roundOf, ih]
+
+theorem find?_of_unique {α : Type} (xs : List α) (key : α → String) (f : α) (hf : f ∈ xs)
+    (h : Spec.nodup (xs.map key) = true) : xs.find? (fun x => key x = key f) = some f := by
+  induction xs with
+  | nil => simp at hf
+  | cons x rest ih =>
+    simp only [List.map_cons, nodup_cons, Bool.and_eq_true, Bool.not_eq_true', List.contains_eq_mem,
+      decide_eq_false_iff_not, List.mem_map, not_exists, not_and] at h
+    simp only [List.mem_cons] at hf
+    simp only [List.find?_cons]
+    rcases hf with rfl | hf
+    · simp
+    · have hne : key x ≠ key f := fun he => h.1 f hf he.symm
+      simp only [hne, decide_false]
+      exact ih hf h.2
+
+theorem defSelOf_eq (d : Definition) : Spec.defSelOf d = Model.defSel d := by cases d <;> rfl
+
+theorem mem_allSpreads_of_frag {D : Document} {f : FragInfo} (hf : f ∈ Model.fragsOf D) {x : String}
+    (hx : x ∈ Model.spreadNamesSet f.sel) : x ∈ Spec.allSpreads D := by
+  unfold Model.fragsOf at hf
+  simp only [List.mem_filterMap] at hf
+  obtain ⟨d, hd, hdf⟩ := hf
+  unfold Spec.allSpreads
+  simp only [List.mem_flatMap]
+  refine ⟨d, hd, ?_⟩
+  cases d with
+  | op => simp at hdf
+  | frag n np tc tcp dirs sel p =>
+    simp only [Option.some.injEq] at hdf
+    subst hdf
+    simpa [Spec.defSelOf, spreadsInSet_eq] using hx
+
+theorem directDeps_spec {D : Document} (hu : Spec.fragmentNamesUnique D = true) (a x : String) :
+    x ∈ Model.directDeps D a ↔ x ∈ Spec.fragDeps D a := by
+  unfold Model.directDeps Spec.fragDeps
+  rw [fragLast_eq_first hu, ← fragsOf_map]
+  simp only [List.mem_flatMap, List.mem_map]
+  unfold Spec.fragmentNamesUnique at hu
+  rw [← fragsOf_names] at hu
+  constructor
+  · intro h
+    cases hf : Model.fragFirst D a with
+    | none => simp [hf] at h
+    | some f =>
+      simp only [hf] at h
+      have hm : f ∈ Model.fragsOf D := by unfold Model.fragFirst at hf; exact List.mem_of_find?_eq_some hf
+      have hn : f.name = a := by
+        unfold Model.fragFirst at hf; simpa using List.find?_some hf
+      refine ⟨(f.name, f.tc, f.sel), ⟨f, hm, rfl⟩, ?_⟩
+      simp only [hn, if_true, spreadsInSet_eq]
+      exact (mem_dedup _ x).1 (by simpa [Model.dedup, Spec.dedup] using h)
+  · rintro ⟨t, ⟨f, hm, rfl⟩, hx⟩
+    by_cases hn : f.name = a
+    · simp only [hn, if_true, spreadsInSet_eq] at hx
+      have : Model.fragFirst D a = some f := by
+        unfold Model.fragFirst
+        rw [← hn]
+        exact find?_of_unique (Model.fragsOf D) (·.name) f hm hu
+      simp only [this]
+      have := (mem_dedup (Model.spreadNamesSet f.sel) x).2 hx
+      simpa [Model.dedup, Spec.dedup] using this
+    · simp [hn] at hx
+
+theorem directDeps_in_U (D : Document) (a x : String) (h : x ∈ Model.directDeps D a) : x ∈ Spec.allSpreads D := by
+  unfold Model.directDeps at h
+  cases hf : Model.fragLast D a with
+  | none => simp [hf] at h
+  | some f =>
+    simp only [hf] at h
+    have hm : f ∈ Model.fragsOf D := by
+      unfold Model.fragLast at hf
+      have := List.mem_of_find?_eq_some hf
+      simpa using this
+    have hx : x ∈ Model.spreadNamesSet f.sel := (mem_dedup _ x).1 (by simpa [Model.dedup, Spec.dedup] using h)
+    exact mem_allSpreads_of_frag hm hx
+
+theorem cycleFuel_eq (D : Document) : Model.cycleFuel D = (Spec.allSpreads D).length + 2 := by
+  unfold Model.cycleFuel Spec.allSpreads
+  congr 2
+  induction D with
+  | nil => rfl
+  | cons d rest ih => simp only [List.flatMap_cons, ih, defSelOf_eq, spreadsInSet_eq]
+
+/-- The search for one name: it terminates within the fuel and finds a cycle iff the fragment
+    reaches itself. -/
+theorem cycleSearch_start (D : Document) (n : String) :
+    ∃ b, cycleSearch D n (Model.cycleFuel D) [n] 0 [] = some b ∧ (b = true ↔ Reach (Model.directDeps D) n n) := by
+  apply cycleSearch_spec D (Spec.allSpreads D) n (directDeps_in_U D)
+  · exact ⟨rfl, by simp, by simp, by intro j hj; omega, rfl, by simp, by simp⟩
+  · rw [cycleFuel_eq]; omega
+
+theorem cycleLoop_spec (D : Document) : ∀ (names : List String), (∀ n ∈ names, (Model.fragLast D n).isSome = true) →
+    (Model.cycleLoop D names = ([], false) ↔ ∀ n ∈ names, ¬ Reach (Model.directDeps D) n n)
+  | [], _ => by simp [Model.cycleLoop]
+  | n :: rest, h => by
+    have ih := cycleLoop_spec D rest (fun m hm => h m (by simp [hm]))
+    obtain ⟨b, hb, hbr⟩ := cycleSearch_start D n
+    unfold Model.cycleLoop
+    cases hl : Model.cycleLoop D rest with
+    | mk r fo =>
+      rw [hl] at ih
+      simp only [hb]
+      have hsome := h n (by simp)
+      cases b with
+      | true =>
+        cases hf : Model.fragLast D n with
+        | none => simp [hf] at hsome
+        | some f =>
+          simp only [hf]
+          constructor
+          · intro he; simp at he
+          · intro hall
+            exact absurd (hbr.1 rfl) (hall n (by simp))
+      | false =>
+        simp only
+        have hnr : ¬ Reach (Model.directDeps D) n n := fun hr => by simpa using hbr.2 hr
+        rw [ih]
+        simp only [List.mem_cons, forall_eq_or_imp, hnr, not_false_eq_true, true_and]
+
+theorem fragLast_isSome_of_mem (D : Document) (n : String) (h : n ∈ (Model.fragsOf D).map (·.name)) :
+    (Model.fragLast D n).isSome = true := by
+  unfold Model.fragLast
+  rw [List.find?_isSome]
+  simp only [List.mem_map] at h
+  obtain ⟨f, hf, hn⟩ := h
+  exact ⟨f, by simpa using hf, by simpa using hn⟩
+
+/-- The specification's cycle rule is "no fragment reaches itself". -/
+theorem noFragmentCycles_iff (D : Document) :
+    Spec.noFragmentCycles D = true ↔ ∀ n ∈ Spec.fragNames D, ¬ Reach (Spec.fragDeps D) n n := by
+  unfold Spec.noFragmentCycles
+  simp only [List.all_eq_true, Bool.not_eq_true', List.contains_eq_mem, decide_eq_false_iff_not]
+  have hU : ∀ a x, x ∈ Spec.fragDeps D a → x ∈ Spec.allSpreads D := by
+    intro a x hx
+    unfold Spec.fragDeps at hx
+    simp only [List.mem_flatMap] at hx
+    obtain ⟨t, ht, hxt⟩ := hx
+    rw [← fragsOf_map] at ht
+    simp only [List.mem_map] at ht
+    obtain ⟨f, hf, rfl⟩ := ht
+    by_cases hn : f.name = a
+    · simp only [hn, if_true, spreadsInSet_eq] at hxt
+      exact mem_allSpreads_of_frag hf hxt
+    · simp [hn] at hxt
+  constructor
+  · intro h n hn hr
+    apply h n hn
+    rw [reachable_eq_roundsOf, mem_roundsOf_iff (Spec.fragDeps D) (Spec.allSpreads D) hU _ _ (nodup_dedup _)
+      (fun x hx => hU n x ((mem_dedup _ x).1 hx)) (Nat.le_refl _)]
+    rcases (reach_self_iff _ n).1 hr with h1 | ⟨a, ha, har⟩
+    · exact Or.inl ((mem_dedup _ n).2 h1)
+    · exact Or.inr ⟨a, (mem_dedup _ a).2 ha, har⟩
+  · intro h n hn hm
+    apply h n hn
+    rw [reachable_eq_roundsOf, mem_roundsOf_iff (Spec.fragDeps D) (Spec.allSpreads D) hU _ _ (nodup_dedup _)
+      (fun x hx => hU n x ((mem_dedup _ x).1 hx)) (Nat.le_refl _)] at hm
+    apply (reach_self_iff _ n).2
+    rcases hm with h1 | ⟨a, ha, har⟩
+    · exact Or.inl ((mem_dedup _ n).1 h1)
+    · exact Or.inr ⟨a, (mem_dedup _ a).1 ha, har⟩
+
 end ApiFu.C04
